@@ -219,6 +219,8 @@ def main():
             vcases.append(dict(driver=c["name"], sampler=c["sampler"], model=c["model"], kwargs=c["kwargs"], snapshot=os.path.join(r["meta"]["snap"], m["name"]),
                                digest_dir=os.path.join(c["workdir"], "digests"), verify_dir=os.path.join(chk.scratch, "ver", c["name"], m["name"]),
                                stop_after=(2 if c["sampler"] == "ins" else 50) if chk.quick else (None if c["sampler"] == "ins" else 100000), timeout=600, _timeout=650, m=m))
+    if chk.counters.get("drivers_completed", 0) < len(dcases):
+        chk.max_inconclusive = 0    # a driver that did not complete takes all of its crash points with it: never folded into "a few undecided cases"
     t0 = _t.time()
     vres = run_cases(vcases, "checks.c11:verify_worker", chk.scratch, nproc=chk.args.nproc, timeout=650)
     chk.extra["verify_phase_s"] = round(_t.time() - t0, 1)
